@@ -2,7 +2,8 @@
 
 Writer lists (1..5 writers, one case in twelve more writers than the machine
 has processors: cpu_count+1..+4; uneven loads 0..3*eps+2, several splits per
-writer, empty writers, generated per-example delays so that relative speeds
+writer, empty writers, refused writes caught inside the writer function --
+also as a writer's only attempt for a split --, generated per-example delays so that relative speeds
 differ and workers overlap) run through Dataset.write_multiprocessing with
 real worker processes (single_process=False); fb / npz, tfrec at low weight.
 Oracle: differential against the SAME writers run with single_process=True on
@@ -65,7 +66,11 @@ def strategy_case(draw, tier):
         runs = draw(
             st.lists(st.tuples(st.integers(0, 2),
                                st.integers(0, 3 * eps + 2),
-                               st.just(0)).map(list),
+                               st.just(0),
+                               # a refused write (caught by the writer
+                               # function) at that position of the run
+                               st.one_of(st.none(), st.none(), st.none(),
+                                         st.integers(0, 12))).map(list),
                      min_size=0,
                      max_size=3))
         writers.append(runs)
@@ -142,11 +147,13 @@ def run_case(case, ctx):
         for w, runs in enumerate(case["writers"]):
             seq = 0
             concrete = []
-            for split_idx, n, _ in runs:
+            for run in runs:
+                split_idx, n = run[0], run[1]
+                bad_at = run[3] if len(run) > 3 else None
                 split = dsops.SPLITS[split_idx]
                 ids = [w * 10_000 + seq + i for i in range(n)]
                 seq += n
-                concrete.append([split, ids, None])
+                concrete.append([split, ids, None, bad_at])
                 model[split].extend(ids)
             specs.append({
                 "desc": desc,
